@@ -152,7 +152,10 @@ class Program:
             base = S(t[1])
             return ("as", base, t[2])
         if tag == "index":
-            return ("index", S(t[1]), S(t[2]))
+            base, ix = S(t[1]), S(t[2])
+            if base[0] in ("array", "tuple") and ix[0] == "int" and 0 <= ix[1] < len(base[1]):
+                return base[1][ix[1]]
+            return ("index", base, ix)
         if tag == "discr":
             return ("discr", S(t[1]), t[2])
         if tag in ("tuple", "array"):
